@@ -1,4 +1,5 @@
 """Helpers shared by the rule modules."""
+import re
 from cpv.expr import render, rx, render_stmt, top_stmts, atom, const_value, is_null
 from cpv.model import CALL_KINDS, CAST_KINDS
 from cpv.paths import enumerate_paths, Counter, MANY, loop_blocks, trace_nodes
@@ -278,5 +279,69 @@ def string_hooks(extra=None):
          # at(i): the char (as signed char), the terminating NUL at i == size, unknown behind it
          "SimpleString::at": (lambda *a_: None if len(a_) < 2 or txt(a_[0]) is None or not isinstance(a_[1], int) or a_[1] > len(txt(a_[0])) or a_[1] < 0 else
                               (0 if a_[1] == len(txt(a_[0])) else (ord(txt(a_[0])[a_[1]]) - 256 if ord(txt(a_[0])[a_[1]]) > 127 else ord(txt(a_[0])[a_[1]]))))}
+    H["operator+"] = two(lambda a, b: ("str", a + b))
+    H["SimpleString::operator+"] = H["operator+"]
+    H["SimpleString::subString"] = (lambda o, b_, n_=None, *r_: ("str", (txt(o)[b_:] if n_ is None else txt(o)[b_:b_ + n_]) if b_ <= len(txt(o)) else "")
+                                    if txt(o) is not None and isinstance(b_, int) and (n_ is None or isinstance(n_, int)) else None)
+    H["StringFromFormat"] = format_hook
     H.update(extra or {})
     return H
+
+
+def c_format(fmt, args, text=lambda v: v):
+    """printf-style rendering of the conversions the library uses (reference model of vsnprintf for text, integers, chars)"""
+    out, i = [], 0
+    for m in re.finditer(r"%([-0 +#]*)(\d*)(?:\.(\d+))?(hh|h|ll|l|z)?([dusxXcp%])|[^%]+", fmt):
+        t = m.group(0)
+        if not t.startswith("%"):
+            out.append(t)
+            continue
+        flags, width, prec, _len, conv = m.groups()
+        if conv == "%":
+            out.append("%")
+            continue
+        a = args[i] if i < len(args) else None
+        i += 1
+        if conv == "s":
+            v = text(a)
+            if not isinstance(v, str):
+                return None
+            if prec:
+                v = v[:int(prec)]
+        elif conv in "du":
+            if not isinstance(a, int):
+                return None
+            v = str(a)
+        elif conv in "xX":
+            if not isinstance(a, int):
+                return None
+            v = ("%x" if conv == "x" else "%X") % a
+        elif conv == "c":
+            if not isinstance(a, int):
+                return None
+            v = chr(a & 0xff)
+        else:
+            v = "0x%x" % a if isinstance(a, int) else None
+            if v is None:
+                return None
+        if width:
+            pad = "0" if "0" in flags and conv != "s" else " "
+            v = v.ljust(int(width)) if "-" in flags else v.rjust(int(width), pad)
+        out.append(v)
+    return "".join(out)
+
+
+def format_hook(ev_, fmt, *args):
+    def text(v):
+        try:
+            return ev_.cstring(v)
+        except Exception:
+            return None
+    f_ = text(fmt)
+    if f_ is None:
+        return None
+    r = c_format(f_, args, text)
+    return None if r is None else ("str", r)
+
+
+format_hook.wants_ev = True
